@@ -3,7 +3,7 @@ SPECIFICATION Spec
 CONSTANTS
   D = 2
   Leaves = {"none", "int", "tagstr", "bool", "date"}
-  Keys = {"t", "v", "#int"}
+  Keys = {"a", "t", "v"}
   MaxW = 2
   MaxK = 2
   MaxB = 1
@@ -17,3 +17,4 @@ INVARIANT InvNoDecodeError
 INVARIANT InvPlainIffPrimitive
 INVARIANT InvEveryNestedWrapped
 INVARIANT InvKnownIsReal
+INVARIANT InvKnownOnlyKeys
